@@ -3,6 +3,7 @@ package main
 // Property-specific checks that are not plain lock-step runs.
 
 import (
+	"io"
 	"bytes"
 	"encoding/hex"
 	"encoding/json"
@@ -245,7 +246,74 @@ func feedAll(im *impl, data []byte) string {
 var mouseCoords = []int{1, 2, 94, 95, 96, 127, 128, 222, 223, 224, 255, 256, 2015, 2016, 2017, 65535, 100000}
 var mouseCoordsY = []int{1, 95, 96, 223, 224, 2015, 2016, 70000}
 
+// mouseBlockingBackend: the application does not read its input while it is busy writing output.
+// A mouse report then waits in the backend's writer — it must not keep the read loop from
+// consuming that output (the report is written after the terminal lock has been released).
+func mouseBlockingBackend(c *specialCtx) {
+	pr, pw := io.Pipe() // application output -> terminal
+	rr, rw := io.Pipe() // terminal -> application input
+	vt := te.VerifNew(&te.EmptyFrontend{}, te.NewNoPTYBackend(pr, rw), te.TextReadModeRune, false)
+	_ = vt.Terminal().Resize(20, 5)
+	loopDone := vt.StartLoop()
+	_, _ = pw.Write([]byte("\x1b[?1000h\x1b[?1006h"))
+	for deadline := time.Now().Add(5 * time.Second); time.Now().Before(deadline); time.Sleep(time.Millisecond) {
+		ready := false
+		vt.Terminal().WithLock(func() {
+			sn := vt.Snap()
+			ready = sn.ViewInts[0] != 0 && sn.ViewInts[1] == 2
+		})
+		if ready {
+			break
+		}
+	}
+	sent := make(chan struct{})
+	go func() {
+		_, _ = vt.SendMouse(0, true, 0, 3, 2) // blocks in the writer until the report is read
+		close(sent)
+	}()
+	time.Sleep(20 * time.Millisecond)
+	outDone := make(chan struct{})
+	go func() {
+		chunk := bytes.Repeat([]byte("0123456789abcdef\r\n"), 256)
+		for k := 0; k < 16; k++ {
+			_, _ = pw.Write(chunk)
+		}
+		close(outDone)
+	}()
+	select {
+	case <-outDone:
+	case <-time.After(10 * time.Second):
+		c.violation("mouse-report-blocks-loop", "a mouse report waiting in the backend's writer kept the read loop from consuming the application's output (terminal lock held across the write?)", nil)
+	}
+	buf := make([]byte, 64)
+	n := 0
+	got1 := make(chan struct{})
+	go func() { n, _ = rr.Read(buf); close(got1) }()
+	select {
+	case <-got1:
+	case <-time.After(5 * time.Second):
+		c.violation("mouse-report", "blocking backend: no report arrived for a press in mode 1000", nil)
+		return
+	}
+	select {
+	case <-sent:
+	case <-time.After(5 * time.Second):
+		c.violation("mouse-report-blocks-loop", "SendMouse did not return after its report had been read", nil)
+	}
+	if got := string(buf[:n]); got != "\x1b[<0;3;2M" && n > 0 {
+		c.violation("mouse-report", fmt.Sprintf("blocking backend: report %q", got), nil)
+	}
+	pw.Close()
+	rr.Close()
+	select {
+	case <-loopDone:
+	case <-time.After(5 * time.Second):
+	}
+	c.count("blocking-backend")
+}
+
 func specialMouse(c *specialCtx) {
+	mouseBlockingBackend(c)
 	modes := []string{"", "\x1b[?9h", "\x1b[?1000h", "\x1b[?1002h", "\x1b[?1003h"}
 	encs := []string{"", "\x1b[?1005h", "\x1b[?1006h"}
 	type combo struct{ mode, enc int }
@@ -412,10 +480,44 @@ func specialKeys(c *specialCtx) {
 			// … and on the main buffer after a visit to the alternate one that set other flags
 			setup = fmt.Sprintf("\x1b[=%du\x1b[?1049h\x1b[=%du\x1b[>%du\x1b[?1049l\x1b[>4;%dm", ts.flags, (ts.flags*11+3)%32, (ts.flags+9)%32, ts.mok)
 		}
+		if i%7 == 3 {
+			// the state is reached by overflowing the stack of saved flags and popping back
+			var sb strings.Builder
+			fmt.Fprintf(&sb, "\x1b[=%du", (ts.flags+1)%32)
+			for k := 0; k < 36; k++ {
+				fmt.Fprintf(&sb, "\x1b[>%du", (k*5+ts.flags)%32)
+			}
+			sb.WriteString("\x1b[<u\x1b[<u\x1b[<2u")
+			fmt.Fprintf(&sb, "\x1b[>4;%dm", ts.mok)
+			setup = sb.String()
+		}
 		if ts.app {
 			setup += "\x1b[?1h"
 		}
 		feedAll(im, []byte(setup))
+		// the flags in force are what the MODEL's parser makes of the same sequences
+		if _, err := d.cmdBlock("case keep 10 5"); err == nil {
+			_ = d.send("feed " + hex.EncodeToString([]byte(setup)))
+			if mo, err := d.cmdBlock(fmt.Sprintf("adv %d", len(setup))); err == nil {
+				line := mo.lines["M"]
+				if strings.HasSuffix(mo.lines["G"], " 1") {
+					line = mo.lines["A"]
+				}
+				if f := strings.Fields(line); len(f) >= 13 {
+					var mf int
+					fmt.Sscanf(f[11], "%d", &mf)
+					snap := im.vt.Snap()
+					act := 0
+					if snap.OnAlt {
+						act = 1
+					}
+					if snap.KbdFlags[act] != mf {
+						c.violation("key-state", fmt.Sprintf("after %q the flags in force are %d, the model says %d", setup, snap.KbdFlags[act], mf), setup)
+					}
+					ts.flags = mf
+				}
+			}
+		}
 		r := newPrng(uint64(c.seed)*1000 + uint64(i))
 		check := func(ev te.KeyEvent) {
 			got := hexOrDash(im.vt.EncodeKey(ev))
@@ -632,7 +734,14 @@ func specialSegmentation(c *specialCtx) {
 		r := newPrng(seeds[i])
 		cs := genCase(prof, r)
 		if i%5 == 0 {
-			cs.Mode = 1 // grapheme mode: cuts between clusters only (below)
+			// grapheme mode: cuts between clusters only (below); generated as a grapheme-mode case
+			// (combining marks, joiners and selectors inside and at the start of runs)
+			gp := *prof
+			gp.gmode, gp.grid, gp.macros, gp.macroSet = 100, 0, 12, []string{"mark-after-motion", "wide-edges", "indicator-after-control"}
+			gp.weights = withWeights(map[string]int{"textwide": 14, "textzero": 12, "sgr": 10, "query": 4, "osc": 3})
+			delete(gp.weights, "badutf8")
+			cs = genCase(&gp, r)
+			cs.Mode = 1
 			cs.Grid = false
 			if r.chance(1, 2) {
 				// flag emoji (regional-indicator pairs) in the middle of text, at and around the right edge
@@ -660,6 +769,16 @@ func specialSegmentation(c *specialCtx) {
 		{
 			probe := Case{Mode: cs.Mode, Grid: cs.Grid, W: cs.W, H: cs.H, Items: []Item{in("all", data)}}
 			pr := runCase(&probe, d, runOpts{})
+			for _, f := range pr.Findings {
+				// grapheme mode: the recorded corners whose outcome depends on where runs begin
+				if f.Kind == "monitor" && (f.Clause == "zero-width-format-char" || f.Clause == "zwj-force-merge" || f.Clause == "merge-changes-width") {
+					c.mu.Lock()
+					c.st.Cut++
+					c.mu.Unlock()
+					c.violation(f.Clause, f.Detail, nil)
+					return
+				}
+			}
 			if pr.Sanctioned {
 				c.mu.Lock()
 				c.st.Cut++
